@@ -396,7 +396,7 @@ def spec_avg(c, d, i, r, reload):
 
 def indep_params(e, it):
     """(cycles until reload, duration, forced inactive time, reload time) of an effect on an item, read from the
-    attributes / type data by their meaning.  Cycle counts of crystal turrets are taken from the effect itself."""
+    attributes / type data by their meaning (crystal turrets: see below)."""
     from eos import ModuleHigh, ModuleMid, ModuleLow
     from eos.const.eve import AttrId as A
     from eos.eve_obj.effect.fighter_effect import FighterEffect
@@ -422,6 +422,17 @@ def indep_params(e, it):
             cyc = int(round(cap / vol, 7)) // int(rate) or empty
     elif kind == 'ddTargetAttack':
         cyc = e.get_cycles_until_reload(it)
+        # crystals: every crystal in the magazine survives a whole number of cycles (hit points / damage per hit /
+        # chance of a hit, rounded down per crystal); recomputed here whenever all the inputs are plain numbers
+        ch = it.charge
+        if ch is not None and cyc not in (None, math.inf) and ch.attrs.get(A.crystals_get_damaged):
+            hp, chance, dmg = (ch.attrs.get(a) for a in (A.hp, A.crystal_volatility_chance, A.crystal_volatility_dmg))
+            cap, vol = it.attrs.get(A.capacity), ch.attrs.get(A.volume)
+            if None not in (hp, chance, dmg, cap, vol) and hp > 0 and chance > 0 and dmg > 0 and vol > 0:
+                per = hp / dmg / chance
+                qty = int(round(cap / vol, 7))
+                if abs(per - round(per)) > 1e-6 and qty >= 1:          # away from float_to_int's rounding tie
+                    cyc = int(per) * qty or None
     else:
         cyc = math.inf
     return cyc, dur, inact, rt
